@@ -157,8 +157,8 @@ func engineC20(c *vctx) error {
 	if _, _, err := e.cli("init"); err != nil {
 		return fmt.Errorf("init: %w", err)
 	}
-	ntrees := c.n(5, 50)
-	nrest := c.n(13, 40)
+	ntrees := c.n(5, 30)
+	nrest := c.n(13, 30)
 	for ti := 0; ti < ntrees; ti++ {
 		rng := c.rng.fork()
 		var top []*c20Node
